@@ -16,6 +16,11 @@
 (***************************************************************************)
 EXTENDS GoTypes
 
+\* JSONSCHEMAGODEBUG=typeschemasnull=1 (doc.go "Controlling behavior changes"): the behaviour before
+\* v0.3.0 - slices are not nullable, pointers to types with a built-in or TypeSchemas schema add no
+\* null, big.Int is ["null","string"].
+CONSTANT LegacyNull
+
 IntSchema(p) ==
   [type |-> "integer"]
   @@ (IF p \in UnsignedInts THEN [minimum |-> R_0]
@@ -29,6 +34,8 @@ AddNull(s) ==
 
 Optional(f) == f.opts \cap {"omitempty", "omitzero"} # {}
 
+StdSchema(t) == IF LegacyNull /\ t.w = "bigint" THEN [types |-> <<"null", "string">>] ELSE [type |-> "string"]
+
 RECURSIVE InferSpec(_)
 InferSpec(t) ==
   CASE t.k = "prim" -> (IF t.p = "bool" THEN [type |-> "boolean"]
@@ -36,9 +43,10 @@ InferSpec(t) ==
                         ELSE IF t.p \in Floats THEN [type |-> "number"]
                         ELSE IntSchema(t.p))
     [] t.k = "iface" -> EmptyFcn
-    [] t.k = "std" -> [type |-> "string"]
-    [] t.k = "ptr" -> AddNull(InferSpec(t.e))
-    [] t.k = "slice" -> [types |-> <<"null", "array">>, items |-> InferSpec(t.e)]
+    [] t.k = "std" -> StdSchema(t)
+    [] t.k = "ptr" -> IF LegacyNull /\ t.e.k = "std" THEN InferSpec(t.e) ELSE AddNull(InferSpec(t.e))
+    [] t.k = "slice" -> IF LegacyNull THEN [type |-> "array", items |-> InferSpec(t.e)]
+                        ELSE [types |-> <<"null", "array">>, items |-> InferSpec(t.e)]
     [] t.k = "array" -> [type |-> "array", items |-> InferSpec(t.e), minItems |-> t.n, maxItems |-> t.n]
     [] t.k = "map" -> [type |-> "object", additionalProperties |-> InferSpec(t.e)]
     [] t.k = "struct" ->
@@ -100,11 +108,12 @@ InferCode(t) ==
                         ELSE IF t.p \in Floats THEN [type |-> "number"]
                         ELSE IntSchema(t.p))
     [] t.k = "iface" -> EmptyFcn
-    [] t.k = "std" -> [type |-> "string"]
+    [] t.k = "std" -> StdSchema(t)
     [] t.k = "ptr" -> LET s == InferCode(t.e)
-                      IN IF t.e.k = "std" THEN AddNull(s)                    \* the TypeSchemas / initialSchemaMap path
+                      IN IF t.e.k = "std" THEN (IF LegacyNull THEN s ELSE AddNull(s))   \* the TypeSchemas / initialSchemaMap path
                          ELSE IF "type" \in DOMAIN s THEN AddNull(s) ELSE s   \* "if allowNull && s.Type != ''"
-    [] t.k = "slice" -> [types |-> <<"null", "array">>, items |-> InferCode(t.e)]
+    [] t.k = "slice" -> IF LegacyNull THEN [type |-> "array", items |-> InferCode(t.e)]
+                        ELSE [types |-> <<"null", "array">>, items |-> InferCode(t.e)]
     [] t.k = "array" -> [type |-> "array", items |-> InferCode(t.e), minItems |-> t.n, maxItems |-> t.n]
     [] t.k = "map" -> [type |-> "object", additionalProperties |-> InferCode(t.e)]
     [] t.k = "struct" ->
@@ -159,7 +168,13 @@ InferOpt(t, ign, ts) ==
                   sites == OvrSites(t, <<>>, DOMAIN ts)
                   under(c) == \E st \in sites : Len(st.idx) <= Len(c.idx) /\ SubSeq(c.idx, 1, Len(st.idx)) = st.idx
                   plain == SelectSeq(fs, LAMBDA c : ~under(c))
-                  rs == [i \in DOMAIN plain |-> InferOpt(plain[i].f.t, ign, ts)]
+                  \* a `jsonschema:"text"` tag becomes the property's description; an empty tag or one that
+                  \* starts with WORD= is an error (reserved for future use)
+                  BadDesc(f) == "desc" \in DOMAIN f /\ f.desc \in {"", "k=v", "a=b c"}
+                  WithDesc(f, r) == IF IsOk(r) /\ "desc" \in DOMAIN f THEN IOk([description |-> f.desc] @@ r.s) ELSE r
+                  rs == [i \in DOMAIN plain |->
+                           LET r0 == InferOpt(plain[i].f.t, ign, ts)
+                           IN IF IsOk(r0) /\ BadDesc(plain[i].f) THEN IErr ELSE WithDesc(plain[i].f, r0)]
                   kept == SelectSeq([i \in DOMAIN plain |-> i], LAMBDA i : IsOk(rs[i]))
                   req == SelectSeq(kept, LAMBDA i : ~Optional(plain[i].f))
               IN IF \E i \in DOMAIN plain : "err" \in DOMAIN rs[i] THEN IErr
